@@ -6,6 +6,10 @@ ROOT = os.path.dirname(os.path.dirname(os.path.abspath(__file__)))
 
 # property id -> (technique, level text, level note, design ref)
 CHECKS = {
+ "C09": ("static def-use classification of every context operand (CTX-PROVENANCE: origins of the ctx argument of every upstream subscription and notification, through tuples, containers, atomic.Value, struct fields, closure/helper parameters) plus a who-may-call rule for context.Background()/TODO() (NO-FRESH-CONTEXT)",
+         "Static provenance check: for each of ~800 context sinks in package ro (subscribe sites and notifications of every operator, subjects, subscriber, connectable) the operand is traced to its origins; only the subscriber context, the slot context, user-callback results and context.With* of those are accepted, zero values must be guarded by a dominating assignment or a companion flag, unknown forms fail closed. Decides that no operator drops, replaces or nils the context on any path; does not decide which of several allowed contexts is the intended one.",
+         "Trusted: go/types; the induction hypothesis that the upstream source honours the property; four hand-argued zero-value exemptions listed in rules/c09.go. Plugins are reported as INFO here and armed under C18.",
+         "DESIGN.md section 4, C09"),
  "C12": ("static AST/type analysis: declaration-level vs write-level of every captured variable (STATE-LEVEL), who-may-call rule for Subscribe/Collect outside subscribe closures (LAZY-SOURCE), subscribe-site multiplicity, append aliasing at application time",
          "Static discipline check over every operator of package ro (and, as INFO, the plugins): proves that no closure level that runs more often writes state declared at an outer level, that no source is touched at construction/application time and that each parameter source has one subscribe site per subscription. It decides the structural premise of re-subscribability for every operator on every run; it does not compare notification sequences.",
          "Trusted: go/types resolution, the level model (constructor / application literal / subscribe closure) extracted from the observable constructors, the one-symbol hot-construct exemption (ShareWithConfig). Not decided: state behind pointers in user arguments.",
